@@ -318,7 +318,7 @@ class Parser:
         while did_something:
             did_something = False
             if pstate.is_at_end():
-                return left_exp
+                break
 
             result = self.parse_postfix(
                     pstate, min_precedence, left_exp)
